@@ -28,7 +28,7 @@ sys.path.insert(0, os.path.dirname(os.path.abspath(__file__)))
 from rustlex import (TRIVIA, AnchorError, Item, LexError, Tok, body_items, lex,
                      match_close, parse_items, sig)
 
-KEEP_ATTR = re.compile(r"#\s*\[\s*(cfg|cfg_attr)\b")
+KEEP_ATTR = re.compile(r"#\s*\[\s*(cfg\b|cfg_attr\b(?![^\]]*\bdoc\b))")
 
 
 class ShapeError(Exception):
@@ -244,7 +244,7 @@ class Generator:
                     continue
                 sections[-1][1].append(ln)
         unit = None
-        opts = {"ret": None, "spec": [], "loops": {}, "inserts": [], "attr": [], "members": [], "drops": [], "body": None}
+        opts = {"ret": None, "spec": [], "loops": {}, "inserts": [], "attr": [], "members": [], "drops": [], "body": None, "closures": []}
         for h, payload in sections:
             words = h.split()
             if words[0] == "unit":
@@ -265,6 +265,12 @@ class Generator:
                 if not m:
                     raise ValueError("%s:%d: bad insert directive: %s" % (tpl_path, tpl_line, h))
                 opts["inserts"].append((m.group(1), int(m.group(2)), m.group(3), payload))
+            elif words[0] == "closure":
+                # T3b: `|PAT| body` -> `|p: T| <ghost> { let PAT = p; body` (closing brace by a separate insert)
+                m = re.match(r"closure\s+(\d+)\s+`\|(.*)\|`\s+as\s+(\w+)\s*:\s*(.*)$", h)
+                if not m:
+                    raise ValueError("%s:%d: bad closure directive: %s" % (tpl_path, tpl_line, h))
+                opts["closures"].append((int(m.group(1)), m.group(2), m.group(3), m.group(4).strip(), payload))
             elif words[0] == "drop":
                 opts["drops"].append(words[2])
             elif words[0] == "body":
@@ -689,6 +695,42 @@ class Generator:
             txt = " " + "\n".join(payload).strip("\n") + " "
             edits.append((at, at, txt))
             unit.insertions.append("%s `%s`: %s" % (where, anchor, " ".join(txt.split())[:120]))
+        # T3b closure pattern parameter desugaring
+        for occ, pat, var, ty, payload in opts["closures"]:
+            anchor = "|%s|" % pat
+            pos = -1
+            for _ in range(occ):
+                pos = body_text.find(anchor, pos + 1)
+                if pos < 0:
+                    raise ShapeError("%s: closure `%s` (#%d) not found in fn body" % (unit.name, anchor, occ))
+            a_start = body_text_start + pos
+            a_end = a_start + len(anchor)
+            ta = [k for k in range(bo, bc + 1) if toks[k].start == a_start]
+            tb = [k for k in range(bo, bc + 1) if toks[k].end == a_end]
+            if not ta or not tb:
+                raise ShapeError("%s: closure `%s` not on token boundaries" % (unit.name, anchor))
+            ghost = " ".join("\n".join(payload).split())
+            txt = "|%s: %s| %s { let %s = %s; " % (var, ty, ghost, pat, var)
+            edits.append((ta[0], tb[0] + 1, txt))
+            # the closure is the last argument of a call: its body ends at the `)` closing that call
+            depth = 0
+            opn = None
+            for k in range(ta[0] - 1, bo, -1):
+                tx = toks[k]
+                if tx.kind != "punct":
+                    continue
+                if tx.text in ")]}":
+                    depth += 1
+                elif tx.text in "([{":
+                    if depth == 0:
+                        opn = k
+                        break
+                    depth -= 1
+            if opn is None or toks[opn].text != "(":
+                raise ShapeError("%s: closure `%s` is not a call argument" % (unit.name, anchor))
+            cls = match_close(toks, opn)
+            edits.append((cls, cls, " } "))
+            unit.insertions.append("T3b closure `%s` desugared to `|%s: %s| .. { let %s = %s; ..`, ghost: %s" % (anchor, var, ty, pat, var, ghost[:120]))
         return edits
 
 
